@@ -374,6 +374,15 @@ theorem abort_leaves_nothing (G : Codec) (m : Mgr) (c : Chunk) (h : c.abort = tr
   simp only [handle, h, if_true]
   exact ⟨lookup_erase_self _ _, fun k hk => lookup_erase_other _ _ _ hk⟩
 
+/-- the chunk `Chunker.Abort` produces, handled by the receiver at any point of the stream,
+removes the stream's dechunker, and with it its temp file: the number of temp files
+(`Mgr.files`) does not grow and no entry for the stream is left -/
+theorem chunker_abort_clears (G : Codec) (m : Mgr) (sid : String) :
+    lookup (handle G m (abortChunk sid)).1.live sid = none ∧ (handle G m (abortChunk sid)).1.files ≤ m.files := by
+  refine ⟨(abort_leaves_nothing G m (abortChunk sid) rfl).1, ?_⟩
+  simp only [handle, abortChunk, if_true, Mgr.files, erase]
+  exact List.length_filter_le _ _
+
 /-- a completed stream (its last chunk accepted) leaves nothing behind either -/
 theorem last_leaves_nothing (G : Codec) (m : Mgr) (c : Chunk) (f : Bytes)
     (h : (handle G m c).2 = .installed f) :
